@@ -68,6 +68,11 @@ CHECKS = {
          "ECIES on 5 groups, IBE-CCA on both assignments and IBE-CPA on every suite with the needed hash-to-group, anonymous-set encryption on 3 suites with set sizes 1..4 and every recipient index: every message length 0..80 and {127,128,129,255,256,4095,4096} (IBE: 0..2*hash size+2): decrypt = plaintext or refusal at encryption; wrong key/identity/index => error (authenticated schemes; the empty IBE message is exempt, see DESIGN); one bit per byte flipped and every truncation => error, never a panic; no aligned 16-byte plaintext window in the ciphertext body; the caller's message buffer (with spare capacity) is left intact by Encrypt.",
          "Trusted: kyber draws encryption randomness from crypto/rand itself, so only verdicts/plaintexts are compared.",
          "DESIGN.md §4 C16"),
+ "C17": ("model_checking",
+         "exhaustive enumeration of streams (incl. retry-forcing prefixes), data lengths x patterns, crafted length fields and messages/tags on the real Pick/Embed/Data/Hash code with independent membership predicates; RFC 9380 vectors",
+         "Pick on all groups offering it (13 non-constant streams, all-zero / all-0xff prefixes of 1,3,7 point lengths): independent membership + (q-1)P+P=O, same stream => same point whatever the receiver held. Embed on the 8 groups offering it (incl. a cofactor-84 residue group): every data length 0..EmbedLen+8 x 3 patterns + nil/empty: member, Data() = data truncated to EmbedLen also after decode(encode) and Clone, deterministic. Data() on crafted members with length field in {0,1,EmbedLen-1,EmbedLen,EmbedLen+1,EmbedLen+2,200,255,(256,300,65535)}: error iff out of range, else the stored bytes. Hash-to-group on the 8 hashable groups: 6 message lengths, determinism, pairwise distinct, bit-flip distinct, 3 custom domain-separation tags; RFC 9380 vectors for edwards25519 ELL2 and BLS12-381 G1 (5) / G2 (3) on kilic, circl and gnark.",
+         "Trusted: curve parameters and RFC vectors transcribed into /verif; constant streams excluded.",
+         "DESIGN.md §4 C17"),
 }
 
 NOT_YET = "check not built yet in this round (planned: see DESIGN.md §4)"
